@@ -79,7 +79,7 @@ CLEANED_ON_EXIT = {
 }
 
 
-@rule('R17.a', ('C17', 'C06'), 'no persistent state is read before it is '
+@rule('R17.a', ('C17', 'C06', 'C15'), 'no persistent state is read before it is '
       're-initialised (compile: Parser.parse; run: ScriptJob.execute)',
       floor=30,
       decides='compiling a text gives the same result whatever the same '
